@@ -4,13 +4,17 @@ C06 - cost is the stated loss of the model trajectory against the data  (PARTIAL
 Proof side (Pygom/Props/C06.lean): the shape decision tree of `_setWeight_or_spread` (`broadcast_spec`,
 `broadcast_accepts_iff`), column selection by state name in the order given (`solution_selection`), the
 cost as the sum over observations and observed states of the per-entry kernel (`cost_is_loss`), zero
-square cost at the truth (`square_cost_zero_at_truth`).
+square cost at the truth (`square_cost_zero_at_truth`); the values a loss object holds over a history of calls
+(`Held`, `step`, `outputs`: `unrollState_target`, `unrollState_other`, `earlier_outputs_unaffected`,
+`atStored_reproduces`, `output_depends_on_held_values_only`).
 
 Tie: (i) `BaseLoss._setWeight_or_spread`, `get_state_index` and `_setParam` against the Lean driver (`broadcast`,
 `sensIndex`, `setParam`) exactly, on integer inputs, accepted and rejected shapes; (ii) DIRECT ORACLE, no Lean, no pygom
 kernel/integrator/evaluator (see losscommon.py): `cost`, `residual`, `costIV` of the real loss objects
 against scipy.stats log-densities / squared weighted residuals of an independent DOP853 (1e-12) trajectory
-of the right-hand side the Lean driver assembled (random models) or a hand-written one (catalogue models).
+of the right-hand side the Lean driver assembled (random models) or a hand-written one (catalogue models);
+(iii) HISTORY cases (losshist.py, same direct oracle): scripts of calls of all eleven entry points on one or two loss
+objects, judged against the reference for the values the object currently holds - see the docstring there.
 """
 import json
 import random
@@ -23,7 +27,9 @@ from . import losshist as LH
 PROP = "C06"
 LEAN = {"module": "Pygom.Props.C06",
         "required": ["Pygom.C06.broadcast_spec", "Pygom.C06.broadcast_accepts_iff", "Pygom.C06.solution_selection",
-                     "Pygom.C06.theta_bound_by_name", "Pygom.C06.cost_is_loss", "Pygom.C06.square_cost_zero_at_truth"]}
+                     "Pygom.C06.theta_bound_by_name", "Pygom.C06.cost_is_loss", "Pygom.C06.square_cost_zero_at_truth",
+                     "Pygom.C06.unrollState_target", "Pygom.C06.unrollState_other", "Pygom.C06.earlier_outputs_unaffected",
+                     "Pygom.C06.atStored_reproduces", "Pygom.C06.output_depends_on_held_values_only"]}
 BUDGET = {"quick": {"cases": 1000, "broadcast": 50, "per_batch": 40, "history": 704},
           "thorough": {"cases": 40000, "broadcast": 600, "per_batch": 60, "history": 7040}}
 RULE = ("random bounded models (gen_model, autonomous, 2-4 states, 1-4 parameters, short horizons) and catalogue models "
